@@ -979,6 +979,7 @@ func (r *Reader) parseBodyElementsInOrder(data []byte) error {
 
 	decoder := xml.NewDecoder(strings.NewReader(string(data)))
 	var inBody bool
+	var depth int // nesting depth below <w:body>; its direct children are at depth 1
 	var paraIndex, tableIndex int
 
 	for {
@@ -990,12 +991,19 @@ func (r *Reader) parseBodyElementsInOrder(data []byte) error {
 		switch t := token.(type) {
 		case xml.StartElement:
 			// Check if we're entering the body
-			if t.Name.Local == "body" {
-				inBody = true
+			if !inBody {
+				if t.Name.Local == "body" {
+					inBody = true
+					depth = 0
+				}
 				continue
 			}
 
-			if !inBody {
+			// Body.Paragraphs and Body.Tables hold only the direct children of
+			// <w:body>, so only those may advance the indexes: paragraphs and
+			// tables nested in table cells belong to their table.
+			depth++
+			if depth != 1 {
 				continue
 			}
 
@@ -1019,9 +1027,15 @@ func (r *Reader) parseBodyElementsInOrder(data []byte) error {
 				}
 			}
 		case xml.EndElement:
-			if t.Name.Local == "body" {
-				inBody = false
+			if !inBody {
+				continue
 			}
+			if depth == 0 {
+				// closing </w:body>
+				inBody = false
+				continue
+			}
+			depth--
 		}
 	}
 
